@@ -44,7 +44,8 @@ class G:
         self.label = 'start'
         self.pos = ''
         self.saved = (0, [], None)
-        self.waiting_recv = None  # channel this goroutine is parked on as a receiver
+        self.waiting_recv = None  # channels this goroutine is parked on as a receiver
+        self.waiting_send = None  # [(chan, value, [taken])] while parked as a sender
 
 
 class Coop:
@@ -354,6 +355,11 @@ def install(I, preemptions=1, ds_sync=True, max_sync=4000):
     C['(*sync.WaitGroup).Wait'] = wg_wait
 
     # --- channels
+    # A channel operation is atomic in Go: it either completes or parks the goroutine in one step. It is modelled as
+    # (1) a scheduling point that is always enabled -- the moment the operation starts: readiness is evaluated there --
+    # and, when nothing is ready, (2) a parked state (the goroutine is registered as a waiting receiver / sender of the
+    # channels involved) with a second scheduling point enabled when a case is ready. The window between leaving a lock
+    # and being parked on a channel is therefore visible to the other goroutines, which is where wake-ups get lost.
     def mkchan(I, args, ins):
         n = args[0]
         if not isinstance(n, int):
@@ -369,7 +375,11 @@ def install(I, preemptions=1, ds_sync=True, max_sync=4000):
         return ch.ctx.cancelled if getattr(ch, 'ctx', None) is not None else ch.closed
 
     def recv_waiters(c, ch):
-        return [h for h in c.gs if not h.done and h is not c.cur and h.waiting_recv is not None and ch in h.waiting_recv]
+        return [h for h in c.gs if not h.done and h is not c.cur and h.waiting_recv is not None and any(x is ch for x in h.waiting_recv)]
+
+    def send_waiters(c, ch):
+        return [h for h in c.gs if not h.done and h is not c.cur and getattr(h, 'waiting_send', None) and
+                any(x[0] is ch and not x[2][0] for x in h.waiting_send)]
 
     def send_ready(c, ch):
         if ch is None:
@@ -382,45 +392,105 @@ def install(I, preemptions=1, ds_sync=True, max_sync=4000):
             return True
         return False
 
-    def recv_ready(ch):
+    def recv_ready(c, ch):
         if ch is None:
             return False
         if is_done(ch):
             return done_closed(ch)
-        return bool(ch.buf) or ch.closed
+        return bool(ch.buf) or ch.closed or bool(send_waiters(c, ch))
 
     def do_send(I, ch, v, ins):
         if ch.closed:
             raise GoPanic('send-on-closed', None, (ins or {}).get('pos', ''))
         ch.buf.append(v)
 
-    def do_recv(I, ch, ins):
+    def do_recv(I, c, ch, ins):
         """returns (value, ok)"""
         if is_done(ch):
             return (None, False)
         if ch.buf:
-            return (ch.buf.pop(0), True)
+            v = ch.buf.pop(0)
+            # a sender parked on a full buffered channel moves its value in
+            for h in send_waiters(c, ch):
+                for x in h.waiting_send:
+                    if x[0] is ch and not x[2][0] and len(ch.buf) < ch.cap:
+                        ch.buf.append(x[1])
+                        x[2][0] = True
+                        break
+                break
+            return (v, True)
+        ws = send_waiters(c, ch)
+        if ws:
+            for x in ws[0].waiting_send:
+                if x[0] is ch and not x[2][0]:
+                    x[2][0] = True
+                    return (x[1], True)
         return (None, False)
+
+    def chan_op(I, states, blocking, ins, label):
+        """states: [(dir, chan, value)], dir 1 = send, 2 = recv. Returns (index or -1, value, ok)"""
+        c = co(I)
+        g = c.cur
+
+        def ready():
+            r = []
+            for idx, (d, ch, sv) in enumerate(states):
+                if ch is None:
+                    continue
+                if d == 1:
+                    if send_ready(c, ch):
+                        r.append(idx)
+                else:
+                    if recv_ready(c, ch):
+                        r.append(idx)
+            return r
+
+        c.sync(lambda: True, label, ins)
+        r = ready()
+        if not r:
+            if not blocking:
+                return (-1, None, False)
+            # park: register as waiting receiver / sender; a parked sender may be completed by a receiver
+            g.waiting_recv = [ch for (d, ch, sv) in states if d == 2 and ch is not None]
+            sends = [(ch, sv, [False]) for (d, ch, sv) in states if d == 1 and ch is not None]
+            g.waiting_send = sends
+            try:
+                c.sync(lambda: bool(ready()) or any(x[2][0] for x in sends), label + '-parked', ins)
+            finally:
+                g.waiting_recv = None
+                g.waiting_send = None
+            for k, x in enumerate(sends):
+                if x[2][0]:
+                    # a receiver took the value while this goroutine was parked
+                    idx = [i for i, (d, ch, sv) in enumerate(states) if d == 1 and ch is x[0]][0]
+                    return (idx, None, False)
+            r = ready()
+        idx = r[0]
+        if len(r) > 1:
+            # Go picks among the ready cases at random: a solver-chosen alternative
+            which = I.fresh_int('selcase')
+            idx = r[I.decide([which == j for j in r], 'select-case')]
+        d, ch, sv = states[idx]
+        if d == 1:
+            do_send(I, ch, sv, ins)
+            return (idx, None, False)
+        v, ok = do_recv(I, c, ch, ins)
+        return (idx, v, ok)
 
     def send(I, args, ins):
         ch, v = args
-        c = co(I)
-        c.sync(lambda: send_ready(c, ch), 'send', ins)
-        do_send(I, ch, v, ins)
+        if ch is None:
+            co(I).sync(lambda: False, 'send-on-nil-chan', ins)
+        chan_op(I, [(1, ch, v)], True, ins, 'send')
         return None
 
     C['chan.send'] = send
 
     def recv(I, args, ins):
         ch, commaok = args
-        c = co(I)
-        g = c.cur
-        g.waiting_recv = [ch]
-        try:
-            c.sync(lambda: recv_ready(ch), 'recv', ins)
-        finally:
-            g.waiting_recv = None
-        v, ok = do_recv(I, ch, ins)
+        if ch is None:
+            co(I).sync(lambda: False, 'recv-on-nil-chan', ins)
+        idx, v, ok = chan_op(I, [(2, ch, None)], True, ins, 'recv')
         if commaok:
             t = I.prog.types[ins['t']].under()
             if not ok:
@@ -444,42 +514,14 @@ def install(I, preemptions=1, ds_sync=True, max_sync=4000):
 
     def select(I, args, ins):
         states, blocking = args
-        c = co(I)
-        g = c.cur
         t = I.prog.types[ins['t']].under()
         zeros = [I.zero(I.prog.types[f['t']]) for f in t.fields[2:]]
-
-        def ready():
-            r = []
-            for idx, (d, ch, sv) in enumerate(states):
-                if ch is None:
-                    continue
-                if d == 1:
-                    if send_ready(c, ch):
-                        r.append(idx)
-                else:
-                    if recv_ready(ch):
-                        r.append(idx)
-            return r
-
-        g.waiting_recv = [ch for (d, ch, sv) in states if d == 2 and ch is not None]
-        try:
-            c.sync((lambda: bool(ready())) if blocking else (lambda: True), 'select' if blocking else 'select-default', ins)
-        finally:
-            g.waiting_recv = None
-        r = ready()
-        if not r:
+        idx, v, ok = chan_op(I, states, blocking, ins, 'select' if blocking else 'select-default')
+        if idx < 0:
             return tuple([-1, False] + zeros)
-        idx = r[0]
-        if len(r) > 1:
-            # Go picks among the ready cases at random: a solver-chosen alternative
-            which = I.fresh_int('selcase')
-            idx = r[I.decide([which == j for j in r], 'select-case')]
         d, ch, sv = states[idx]
         if d == 1:
-            do_send(I, ch, sv, ins)
             return tuple([idx, False] + zeros)
-        v, ok = do_recv(I, ch, ins)
         k = sum(1 for (dd, _, _) in states[:idx] if dd == 2)
         z = list(zeros)
         if ok:
